@@ -14,6 +14,7 @@ import (
 	"os"
 	"sort"
 	"sync"
+	"sync/atomic"
 	"testing"
 	"time"
 
@@ -82,7 +83,7 @@ func c04Gen(t *rapid.T) c04Scenario {
 	}
 	n := rapid.IntRange(1, vt.Scale(15, 40)).Draw(t, "nops")
 	for i := 0; i < n; i++ {
-		o := c04Op{Kind: rapid.SampledFrom([]string{"req", "req", "req", "req", "overlap", "overlap", "cancel", "cancel", "timedcancel", "timedcancel", "recreate"}).Draw(t, "opkind")}
+		o := c04Op{Kind: rapid.SampledFrom([]string{"req", "req", "req", "req", "overlap", "overlap", "cancel", "cancel", "timedcancel", "timedcancel", "recreate", "race"}).Draw(t, "opkind")}
 		o.A = c04GenReq(t, "a")
 		switch o.Kind {
 		case "overlap":
@@ -97,6 +98,10 @@ func c04Gen(t *rapid.T) c04Scenario {
 		case "timedcancel":
 			o.A.Kind = "add"
 			o.CancelUS = rapid.IntRange(1, 1500).Draw(t, "cancelus")
+		case "race":
+			// two status queries for one pod released from a spin barrier, repeated Gate*10 times
+			o.A.Kind = "get"
+			o.Gate = rapid.IntRange(2, 6).Draw(t, "rounds")
 		}
 		s.Ops = append(s.Ops, o)
 	}
@@ -466,6 +471,61 @@ func fmtAddrs(confs []*rpc.NetConf) string {
 
 const c04ReqTimeout = 400 * time.Millisecond
 
+// stepRace: "while one request for a pod is in flight, any concurrent request for the same
+// pod is rejected". Two status queries (no side effects) for one pod start at the same
+// instant from a spin barrier; every request that gets into the service is held at its pod
+// lookup until both have either arrived there or returned. At no time may two of them be
+// inside. Repeated, because only an exact interleaving shows a non-atomic in-flight mark.
+func (x *c04World) stepRace(o c04Op, k *vsK8s) {
+	c := x.c
+	name := c04PodName(o.A.Pod)
+	key := vsKey("ns", name)
+	cid := x.cidFor(o.A)
+	oldGate := k.gate
+	defer func() { k.gate = oldGate }()
+	x.labels["race"] = true
+	for round := 0; round < o.Gate*10; round++ {
+		var inside, maxInside atomic.Int32
+		release := make(chan struct{})
+		k.gate = func(gk string) {
+			if gk != key {
+				return
+			}
+			n := inside.Add(1)
+			for {
+				m := maxInside.Load()
+				if n <= m || maxInside.CompareAndSwap(m, n) {
+					break
+				}
+			}
+			<-release
+			inside.Add(-1)
+		}
+		var start atomic.Bool
+		var wg sync.WaitGroup
+		errs := make([]error, 2)
+		for g := 0; g < 2; g++ {
+			wg.Add(1)
+			go func(g int) {
+				defer wg.Done()
+				for !start.Load() {
+				}
+				ctx, cancel := context.WithTimeout(context.Background(), c04ReqTimeout)
+				_, errs[g] = x.w.svc.GetIPInfo(ctx, vsGetReq(name, cid))
+				cancel()
+			}(g)
+		}
+		time.Sleep(20 * time.Microsecond)
+		start.Store(true)
+		time.Sleep(150 * time.Microsecond)
+		close(release)
+		wg.Wait()
+		if maxInside.Load() > 1 {
+			c.Fatalf("round %d: two concurrent status queries for %s were both admitted into the service at the same time (errors: %v / %v); one of them must be rejected as 'processing'", round, name, errs[0], errs[1])
+		}
+	}
+}
+
 func c04Run(c *vt.Ctx, s c04Scenario) { c04RunOpt(c, s, false) }
 
 func c04RunOpt(c *vt.Ctx, s c04Scenario, noGuard bool) {
@@ -516,6 +576,8 @@ func c04RunOpt(c *vt.Ctx, s c04Scenario, noGuard bool) {
 			x.judge(o.A, cid, res, before, false)
 		case "overlap", "cancel":
 			x.stepParked(o)
+		case "race":
+			x.stepRace(o, k)
 		case "timedcancel":
 			cid := x.cidFor(o.A)
 			before := x.podView(o.A.Pod)
